@@ -85,6 +85,8 @@ func (ce *CondEval) eval(e ast.Expr, s S) []sv {
 			return out
 		}
 	}
+	// `len(x) == 0` on a string is the same test as `x == ""`: rules see one spelling
+	e = NormaliseEmptyTest(ce.Info, e)
 	if ce.Leaf != nil {
 		if t, f, ok := ce.Leaf(e, s); ok {
 			var out []sv
@@ -135,6 +137,65 @@ func (ce *CondEval) eval(e ast.Expr, s S) []sv {
 		ce.OnUnknown(e)
 	}
 	return []sv{{s, true}, {s, false}}
+}
+
+// EmptyStringLit is the literal "" of synthesised comparisons (ConstString knows it).
+var EmptyStringLit = &ast.BasicLit{Kind: token.STRING, Value: `""`}
+
+// NormaliseEmptyTest rewrites `len(x) OP k` (k in {0,1}, x of string type) that
+// tests emptiness into `x == ""` / `x != ""`; other expressions are returned as is.
+func NormaliseEmptyTest(info *types.Info, e ast.Expr) ast.Expr {
+	be, ok := ast.Unparen(e).(*ast.BinaryExpr)
+	if !ok || info == nil {
+		return e
+	}
+	lenArg := func(x ast.Expr) ast.Expr {
+		call, ok := ast.Unparen(x).(*ast.CallExpr)
+		if !ok || len(call.Args) != 1 {
+			return nil
+		}
+		if b, ok := Callee(info, call).(*types.Builtin); !ok || b.Name() != "len" {
+			return nil
+		}
+		if t := info.TypeOf(call.Args[0]); t != nil {
+			if bt, ok := t.Underlying().(*types.Basic); ok && bt.Info()&types.IsString != 0 {
+				return call.Args[0]
+			}
+		}
+		return nil
+	}
+	x, k, op := lenArg(be.X), be.Y, be.Op
+	if x == nil {
+		// k OP len(x): mirror
+		x, k = lenArg(be.Y), be.X
+		switch op {
+		case token.LSS:
+			op = token.GTR
+		case token.LEQ:
+			op = token.GEQ
+		case token.GTR:
+			op = token.LSS
+		case token.GEQ:
+			op = token.LEQ
+		}
+	}
+	if x == nil {
+		return e
+	}
+	kv, ok := ConstInt(info, k)
+	if !ok {
+		return e
+	}
+	var res token.Token
+	switch {
+	case kv == 0 && (op == token.EQL || op == token.LEQ), kv == 1 && op == token.LSS:
+		res = token.EQL
+	case kv == 0 && (op == token.NEQ || op == token.GTR), kv == 1 && op == token.GEQ:
+		res = token.NEQ
+	default:
+		return e
+	}
+	return &ast.BinaryExpr{X: x, OpPos: be.OpPos, Op: res, Y: EmptyStringLit}
 }
 
 // CmpAtom decomposes a comparison leaf `a OP b` (==, !=, <, <=, >, >=).
